@@ -1,4 +1,5 @@
 import XModel.ManagerInv
+import XModel.Acyclic
 import XModel.DfsIter
 /-!
 # C02 — one assignment runs exactly the downstream tasks, once each, in dependency order
@@ -10,19 +11,17 @@ open Store Push Index Manager
 
 variable (g : Path → List Path) (nodes start : List Path)
 
-/-- each triggered task is scheduled at most once -/
+/-- each triggered task is scheduled at most once — every graph, cyclic ones included -/
 theorem C02_once (fuel : Nat) (hfuel : fuel ≥ nodes.length) (hstart : ∀ s ∈ start, s ∈ nodes)
-    (hclosed : ∀ u ∈ nodes, ∀ w ∈ g u, w ∈ nodes)
-    (hac : ∀ a b, (∃ s ∈ start, Dfs3.Reach g s a) → a ≠ b → Dfs3.Reach g a b → Dfs3.Reach g b a → False) :
+    (hclosed : ∀ u ∈ nodes, ∀ w ∈ g u, w ∈ nodes) :
     (Dfs3.toposort g fuel start).Nodup :=
-  Dfs3.toposort_nodup g nodes start fuel hfuel hstart hclosed hac
+  Dfs3.toposort_nodup' g nodes start fuel hfuel hstart hclosed
 
-/-- exactly the tasks reachable from the start set are scheduled: nothing else runs -/
+/-- exactly the tasks reachable from the start set are scheduled: nothing else runs — every graph -/
 theorem C02_exact (fuel : Nat) (hfuel : fuel ≥ nodes.length) (hstart : ∀ s ∈ start, s ∈ nodes)
     (hclosed : ∀ u ∈ nodes, ∀ w ∈ g u, w ∈ nodes)
-    (hac : ∀ a b, (∃ s ∈ start, Dfs3.Reach g s a) → a ≠ b → Dfs3.Reach g a b → Dfs3.Reach g b a → False)
     (x : Path) : x ∈ Dfs3.toposort g fuel start ↔ ∃ s ∈ start, Dfs3.Reach g s x :=
-  Dfs3.toposort_mem_iff g nodes start fuel hfuel hstart hclosed hac x
+  Dfs3.toposort_mem_iff' g nodes start fuel hfuel hstart hclosed x
 
 /-- never before a triggered task that produces one of its inputs -/
 theorem C02_order (fuel : Nat) (hfuel : fuel ≥ nodes.length) (hstart : ∀ s ∈ start, s ∈ nodes)
@@ -45,6 +44,20 @@ theorem C02_findTaskids (s : MState) (hi : MInv s) (p : Path)
     (∀ u w, u ∈ findTaskids s.idx (chainR p) → w ∈ gOf s.idx u → w ≠ u →
       Dfs3.Before (findTaskids s.idx (chainR p)) u w) :=
   findTaskids_spec s hi (chainR p) hac
+
+/-- on the executable manager, without any acyclicity assumption: once each, exactly the reachable tasks -/
+theorem C02_findTaskids_once_exact (s : MState) (hi : MInv s) (p : Path) :
+    (findTaskids s.idx (chainR p)).Nodup ∧
+    (∀ x, x ∈ findTaskids s.idx (chainR p) ↔ ∃ s0 ∈ startOf s.idx (chainR p), Dfs3.Reach (gOf s.idx) s0 x) :=
+  findTaskids_once_exact s hi (chainR p)
+
+/-- the Boolean acyclicity test of the driver (`acyclicFrom`: the depth-first order respects every edge)
+    implies the hypothesis of `C02_order` / `C02_findTaskids` -/
+theorem C02_acyclic_test_sound (s : MState) (hi : MInv s) (p : Path)
+    (h : acyclicFrom s.idx (startOf s.idx (chainR p)) = true) :
+    ∀ a b, (∃ s0 ∈ startOf s.idx (chainR p), Dfs3.Reach (gOf s.idx) s0 a) → a ≠ b →
+      Dfs3.Reach (gOf s.idx) a b → Dfs3.Reach (gOf s.idx) b a → False :=
+  acyclicFrom_sound s hi (chainR p) h
 
 /-- `run_tasks` executes the list in order and nothing else: it is the left fold of `runTask` -/
 theorem C02_runs_in_order (l1 l2 : List MTask) (s s1 : MState) (h : runTasks s l1 = (s1, none)) :
